@@ -182,6 +182,66 @@ pub fn run_edit_primitive(run: &mut Run) {
     run.require_class("edit_primitive_random", "remove", (n / 10) as u64);
 }
 
+pub fn test_doc_case(
+    case: &super::docsweep::DocCase,
+    ctx: &mut CaseCtx,
+) -> Result<(), String> {
+    use super::docsweep;
+    if let Some(kf) = docsweep::excluded_by_known(case) {
+        ctx.class(format!("excluded:{kf}"));
+        return Ok(());
+    }
+    let ev = match docsweep::evaluate(case) {
+        Ok(ev) => ev,
+        Err(_) => {
+            ctx.class("skipped_c01_panic");
+            return Ok(());
+        }
+    };
+    docsweep::classify(case, Some(&ev), ctx);
+    let mut behind_multibyte = false;
+    let mut later_paragraph = false;
+    for l in &ev.lints {
+        crate::oracle::check_lint_against_text(l, &ev.source)
+            .map_err(|e| format!("({}) {}", case.fe.label(), e))?;
+        let before = &ev.source[..l.span.start.min(ev.source.len())];
+        behind_multibyte |= before.iter().any(|c| c.len_utf8() > 1);
+        later_paragraph |= before.windows(2).any(|w| w == ['\n', '\n']);
+    }
+    ctx.class_if(behind_multibyte, "lint_behind_multibyte");
+    ctx.class_if(later_paragraph, "lint_in_later_paragraph");
+    ctx.class_if(ev.lints.iter().any(|l| !l.suggestions.is_empty()), "has_suggestions");
+    if !ev.lints.is_empty() && (behind_multibyte || later_paragraph || !case.fe.is_plain()) {
+        ctx.nontrivial(&(&case.fe, &case.text));
+    }
+    Ok(())
+}
+
+pub fn run(run: &mut Run) {
+    run.rule = "(a) edit primitive: all texts <=4 (thorough 6) over {a, astral} x all spans x 7 suggestions exhaustively, plus random (text <=40 chars over a 6-symbol alphabet incl. astral/newline, span anywhere incl. empty and both ends, Replace/Insert/Remove, equal-length replacements forced in 1/4 of Replace cases); non-trivial = span touches a text end, is empty, or replacement length = span length. (b) every lint of every document of the C01 sweep (all front-ends, configs, dialects): span inside the text and every suggestion equals the reference splice; non-trivial = a lint behind a multi-byte char, in a later paragraph or in a markup/comment front-end.".into();
+    run_edit_primitive(run);
+    run.guard = true;
+    let n = run.n(16_000, 1_000_000);
+    run.prop(
+        "document_lints",
+        n,
+        super::docsweep::doc_case_strategy,
+        test_doc_case,
+    );
+    run.require_class("document_lints", "has_suggestions", (n / 5) as u64);
+    run.require_class("document_lints", "lint_behind_multibyte", (n / 50) as u64);
+    run.require_class("document_lints", "lint_in_later_paragraph", (n / 50) as u64);
+}
+
+pub fn replay(check: &str, case: Value, _run: &mut Run) -> Result<(), String> {
+    if check == "document_lints" {
+        let c: super::docsweep::DocCase = serde_json::from_value(case).map_err(|e| e.to_string())?;
+        let mut ctx = CaseCtx::default();
+        return test_doc_case(&c, &mut ctx);
+    }
+    replay_edit(case)
+}
+
 pub fn replay_edit(case: Value) -> Result<(), String> {
     let c: EditCase = serde_json::from_value(case).map_err(|e| e.to_string())?;
     let mut ctx = CaseCtx::default();
